@@ -307,7 +307,9 @@ class CompositeFrontend(ConstrainedFrontend):
     #
 
     def _ensure_sat(self, extra_constraints):
-        if self._unsat or (len(extra_constraints) == 0 and not self.satisfiable()):
+        # unsatisfiable constraints stay unsatisfiable under extra constraints: the children the query does not
+        # touch have to be satisfiable as well
+        if self._unsat or not self.satisfiable():
             raise UnsatError("CompositeSolver is already unsat")
 
     def check_satisfiability(self, extra_constraints=(), exact=None):
